@@ -14,6 +14,11 @@ class AnalysisError(Exception):
     """The analysis cannot be carried out (anchor missing, parse error...)."""
 
 
+class Unsupported(AnalysisError):
+    """An anchored function uses a construct the analysis cannot follow, so the
+    obligation cannot be established (reported as a failed obligation)."""
+
+
 def add_parents(tree):
     for node in ast.walk(tree):
         for child in ast.iter_child_nodes(node):
